@@ -144,6 +144,43 @@ SPECS["C10"] = dict(
     examples="(* non-vacuity: GrammarP.prod_check_ok exhibits a derivable word for each of the 35 rules; ViableP has worked examples *)\n")
 
 
+SPECS["C04"] = dict(
+    title="instantiating a template equals substituting values into its text",
+    imports=STD + "From BB Require Import Syntax Values Eval LoadP.",
+    items=[
+        dict(name="subst_term_den", comment="instantiation is substitution: the value of an instantiated argument is the value of the symbolic argument under the assignment, in any arithmetic structure"),
+        dict(name="inst_value_rel", comment="... applied to every symbolic argument, also inside keyword lists and arrays; everything else is unchanged"),
+        dict(name="inst_ops_rel"),
+        dict(name="inst_vars_rel"),
+        dict(name="pars_invariant", comment="the reported free parameters cover every parameter occurring in operations and variables"),
+        dict(name="pars_monotone"),
+        dict(name="inst_closed", comment="an instantiated program has no free parameter left"),
+        dict(name="inst_denoted_pars_free"),
+        dict(name="inst_missing_refused", comment="a missing value is refused"),
+        dict(name="inst_not_template", comment="only templates can be instantiated"),
+    ],
+    examples="(* non-vacuity: LoadP.ex_template_fresh and LoadP.ex_nested_instantiated evaluate concrete templates *)\n")
+
+SPECS["C07"] = dict(
+    title="calling an included program equals inlining it with renamed modes",
+    imports=STD + "From Coq Require Import Permutation Sorted.\nFrom BB Require Import Syntax Values Eval LoadP.",
+    items=[
+        dict(name="expand_is_rename", comment="a call appends the included program's operations, in order, with its modes (taken in increasing order) renamed to the modes listed at the call"),
+        dict(name="expand_include_inv", comment="... with its parameters bound to the call's keyword arguments (templates)"),
+        dict(name="sortZ_sorted"),
+        dict(name="sortZ_perm"),
+        dict(name="expand_modes", comment="the renamed operations use exactly the call's modes"),
+        dict(name="expand_independent_of_history", comment="every call of a subroutine yields the same operations: the expansion is a function of the included program and the call only"),
+        dict(name="exec_stmt_history_independent"),
+        dict(name="expand_arity_refused", comment="wrong number of modes and wrong keyword arguments are refused"),
+        dict(name="expand_kw_refused_noparams"),
+        dict(name="expand_kw_refused_names"),
+        dict(name="expand_missing_refused"),
+        dict(name="modes_union_incs"),
+    ],
+    examples="(* non-vacuity: LoadP.ex_include evaluates two calls of an included program with modes renamed in increasing order *)\n")
+
+
 def main():
     which = sys.argv[1:] or sorted(SPECS)
     for p in which:
